@@ -288,6 +288,7 @@ def step (line : String) : String :=
   | "serve" :: args => ProtoOps.serveOp args
   | "cdec" :: args => ProtoOps.cdecOp args
   | "hreq" :: args => ProtoOps.hreqOp args
+  | "rseq" :: args => ProtoOps.rseqOp args
   | "disp" :: args => dispOp args
   | ["path", h] => match hexArg h with
     | some b => hexOut (extractProtoPath b)
